@@ -157,6 +157,21 @@ func richXML(seed uint64, idx int) string {
 			t.Outputs = []string{"do1"}
 			t.Inputs = []string{"do1"}
 		}
+		// the extension elements that carry plain attributes: a script with every result type (the default one
+		// spelled out, and none), a called decision, a called element
+		switch rng.Intn(4) {
+		case 0:
+			rt := []string{"string", "integer", "boolean", "float", "object", "array", ""}[rng.Intn(7)]
+			x := fmt.Sprintf(`<olive:script expression="a + %d" result="r%d"`, i, i)
+			if rt != "" {
+				x += fmt.Sprintf(` resultType="%s"`, rt)
+			}
+			t.Ext = append(t.Ext, x+"/>")
+		case 1:
+			t.Ext = append(t.Ext, fmt.Sprintf(`<olive:calledDecision decisionId="d%d" result="dr"/>`, i))
+		case 2:
+			t.Ext = append(t.Ext, fmt.Sprintf(`<olive:calledElement definitionId="defs%d" processId="proc" propagateAllChildVariables="%v"/>`, i, rng.Bool()))
+		}
 		link(t, nil)
 		if rng.Intn(3) == 0 {
 			b := g.Add(gen.Boundary, "", "")
